@@ -25,10 +25,10 @@ func (t *Target) AccessDeniedHTTP(r *http.Request) bool {
 	if err != nil {
 		log.Printf("[ERROR] failed to get host from remote header %s: %s",
 			r.RemoteAddr, err.Error())
-		return false
+		return true
 	}
 
-	ip := net.ParseIP(host)
+	ip := parseIP(host)
 	if ip == nil {
 		log.Printf("[WARN] failed to parse remote address %s", host)
 	}
@@ -52,7 +52,7 @@ func (t *Target) AccessDeniedHTTP(r *http.Request) bool {
 			if xip == host {
 				continue
 			}
-			if ip = net.ParseIP(xip); ip == nil {
+			if ip = parseIP(xip); ip == nil {
 				log.Printf("[WARN] failed to parse xff address %s", xip)
 				continue
 			}
@@ -79,7 +79,7 @@ func (t *Target) AccessDeniedTCP(c net.Conn) bool {
 	addr, ok := c.RemoteAddr().(*net.TCPAddr)
 	if !ok {
 		log.Printf("[ERROR] failed to assert remote connection address for %s", t.Service)
-		return false
+		return true
 	}
 	// check remote connection address
 	if t.denyByIP(addr.IP) {
@@ -89,9 +89,22 @@ func (t *Target) AccessDeniedTCP(c net.Conn) bool {
 	return false
 }
 
+// parseIP parses an IP address which may carry an IPv6 zone,
+// e.g. fe80::1%eth0. The zone is ignored.
+func parseIP(s string) net.IP {
+	if i := strings.IndexByte(s, '%'); i >= 0 {
+		s = s[:i]
+	}
+	return net.ParseIP(s)
+}
+
 func (t *Target) denyByIP(ip net.IP) bool {
-	if ip == nil || len(t.accessRules) == 0 {
+	if len(t.accessRules) == 0 {
 		return false
+	}
+	// the rules cannot be checked for an unknown address
+	if ip == nil {
+		return true
 	}
 	// check allow (whitelist) first if it exists
 	if _, ok := t.accessRules[ipAllowTag]; ok {
